@@ -301,9 +301,7 @@ def parse_file(raw, blimpy_rule=True):
                 return None, f"truncated / non-text card at byte {pos}"
             card = bytes(card).decode()
             pos += 80
-            if card.startswith('END'):
-                if card != f"{'END':<80}":
-                    return None, 'malformed END card'
+            if card == f"{'END':<80}":          # the END card proper; keywords such as ENDTIME are ordinary cards
                 break
             if card[8:10] != '= ':
                 return None, f"card without '= ' at columns 8-9: {card!r}"
@@ -329,7 +327,12 @@ TEMPLATE_USER = {'SCAN': 0, 'CAL_FREQ': 0.0, 'OBSERVER': '', 'TELESCOP': 'X', 'N
 def user_cards(k_extra, directio, template):
     """user-supplied cards: fresh keys, configuration-owned keys (must lose), and -- with the template -- keys the
     template also defines, with zero and empty values among them (must win over the template's)"""
-    user = {f'USR{i:02d}': (i if i % 3 else f'v{i}') for i in range(k_extra)}
+    user = {}
+    for i in range(k_extra):
+        user[f'USR{i:02d}'] = (i if i % 3 else f'v{i}')
+        if i == 0:
+            # valid keywords that merely begin with the letters of the END card, and a value that spells it
+            user.update({'ENDTIME': 59114.5, 'END_MJD': 'END', 'ENDIAN': 0})
     user.update({'NBITS': 2, 'NPOL': 9, 'OBSNCHAN': 77, 'BLOCSIZE': 5, 'TBIN': 0.5, 'CHAN_BW': 1.0, 'OBSBW': -3.0, 'OBSFREQ': 1.0, 'SCANLEN': 1.0, 'NANTS': 5})
     user['PKTIDX'] = 1000
     if template:
